@@ -19,6 +19,15 @@ CHECKS = {
     note='Regex by contract (captures_iter of the pattern \\n yields the line-feed offsets), validated natively on every path; '
          'BTreeSet/HashSet contracts. Outside: texts longer than the bound; the parser\'s Loc.start.',
     technique='symbolic execution of MIR + Z3 (bounded text length), native replay', design='6/C02'),
+ 'C01': dict(
+    text='Inductive step of the REAL walker (walk_node_for_targets, as_target tables, Into<Node>, entry points) executed from MIR for every '
+         'variant of SourceUnit/SourceUnitPart/ContractPart/Statement/Expression/Type enumerated from pt.rs at run time: children opaque, '
+         'Option presence and list lengths as choices, the target set fully symbolic (87 Booleans), recursive calls replaced by the induction '
+         'hypothesis W(child). Oracle: [node if kind requested] ++ W(children in declaration order); Z3 decides membership of the node\'s own '
+         'kind on each path. Correctness of every step gives correctness for trees of any size by structural induction.',
+    note='Bounded in list length only (2 quick / 4 thorough; nested lists 1). Assumes declaration order of pt fields = source order. '
+         'Counterexamples and one instance per variant are printed, parsed by the real parser and run through the real walker.',
+    technique='symbolic execution of MIR, inductive step per variant + Z3, native replay', design='6/C01'),
 }
 NOT_YET = "check not built yet (framework under construction); see DESIGN.md section 6"
 NA = {
